@@ -43,8 +43,10 @@ def cases(tier, seed):
         for i in range(reps if w not in ("pipeline", "wwtl") else (1 if tier == "quick" else 3)):
             out.append(dict(t="workflow", wf=w, par=R.choice([1, 2]), seed=R.randrange(1 << 30)))
     seqs = [["fresh", "repeat"], ["fresh", "override", "repeat"], ["fresh", "repeat", "repeat"], ["fresh", "repeat", "override"],
-            ["interrupted", "override_smaller", "repeat"], ["interrupted", "override_smaller"]]
-    for i in range(6 if tier == "quick" else 200):
+            ["interrupted", "override_smaller", "repeat"], ["interrupted", "override_smaller"],
+            ["fresh", "repeat", "override_other", "repeat"], ["fresh", "absolutize", "repeat"], ["fresh", "repeat", "absolutize", "repeat", "override", "repeat"],
+            ["fresh", "override_other", "repeat", "override_other", "repeat"]]
+    for i in range(10 if tier == "quick" else 200):
         out.append(dict(t="history", seq=seqs[i % len(seqs)], mode=["tan", "tan", "toast"][i % 3], seed=R.randrange(1 << 30), par=R.choice([1, 2])))
     return out
 
@@ -393,7 +395,7 @@ def case_history(spec, workdir):
         m = rng.normal(size=(60, 80)).astype(np.float32)
         paths = [fitsgen.write_piece(os.path.join(ind, "t.fits"), m, (0, 0, 80, 60), (40, 30), scale=0.5, crval=(R.uniform(0, 360), R.uniform(-60, 60)), bottoms_up=True)]
         kw = dict(tiling_method=TilingMethod.TOAST)
-    out = os.path.join(workdir, "out") if R.random() < 0.7 else None
+    out = os.path.join(workdir, "out") if (R.random() < 0.7 or "override_other" in spec["seq"]) else None
     probs = []
     instr_mp.install("natural", spec["seed"])
     calls = 0
@@ -403,9 +405,32 @@ def case_history(spec, workdir):
     class Interrupt(BaseException):
         pass
 
+    current = paths
+    n_other = 0
     for step in spec["seq"]:
-        use = paths
+        use = current
         kw2 = dict(kw)
+        if step == "absolutize":
+            # the publication step of another tool / of `toasty pipeline approve`: index.wtml with absolute URLs is written
+            # next to index_rel.wtml (same statements as toasty.pipeline.cli.approve_impl)
+            from wwt_data_formats.folder import Folder, make_absolutizing_url_mutator
+
+            f = Folder.from_file(os.path.join(out, "index_rel.wtml"))
+            f.mutate_urls(make_absolutizing_url_mutator("https://example.org/data/set%d/" % calls))
+            with open(os.path.join(out, "index.wtml"), "wt", encoding="utf8") as f_out:
+                f.write_xml(f_out)
+            continue
+        if step == "override_other":
+            # the directory is rebuilt from ANOTHER input (other size, other centre => other depth and astrometry)
+            n_other += 1
+            other = os.path.join(ind, "other%d.fits" % n_other)
+            if spec["mode"] == "tan":
+                w2, h2 = R.choice([(120, 100), (1100, 300), (260, 700)])
+                fitsgen.write_piece(other, rng.normal(size=(h2, w2)).astype(np.float32), (0, 0, w2, h2), (w2 / 2, h2 / 2), crval=(R.uniform(0, 360), R.uniform(-60, 60)), bottoms_up=True)
+            else:
+                sc = R.choice([2.0, 0.1])
+                fitsgen.write_piece(other, rng.normal(size=(40, 50)).astype(np.float32), (0, 0, 50, 40), (25, 20), scale=sc, crval=(R.uniform(0, 360), R.uniform(-60, 60)), bottoms_up=True)
+            use = current = [other]
         if step == "interrupted":
             # the first run dies between the base layer and the end of the cascade (before index_rel.wtml is written)
             from toasty import builder as _b
@@ -432,8 +457,8 @@ def case_history(spec, workdir):
                 fitsgen.write_piece(small, rng.normal(size=(100, 120)).astype(np.float32), (0, 0, 120, 100), (60, 50), crval=(10.0, 5.0), bottoms_up=True)
             else:
                 fitsgen.write_piece(small, rng.normal(size=(20, 30)).astype(np.float32), (0, 0, 30, 20), (15, 10), scale=2.0, crval=(10.0, 5.0), bottoms_up=True)
-            use = [small]
-        od, b = toasty.tile_fits(use if len(use) > 1 or R.random() < 0.5 else use[0], out_dir=out, parallel=spec["par"], override=(step in ("override", "override_smaller")), **kw2)
+            use = current = [small]
+        od, b = toasty.tile_fits(use if len(use) > 1 or R.random() < 0.5 else use[0], out_dir=out, parallel=spec["par"], override=(step in ("override", "override_smaller", "override_other")), **kw2)
         calls += 1
         if out is None:
             out = od
